@@ -48,12 +48,15 @@ def cases(tier, seed):
                 for t in ('0', '1e-12', '1e-4', '0.05', '0.9/L'):
                     for r in range(reps):
                         yield dict(kind='from_vector', n=n, d=d, vstyle=vs, tol=t, seed=int(rng.integers(1 << 31)))
+                        if r == 0 and vs in ('complex', 'real', 'lowrank') and t in ('0', '1e-4'):
+                            # the error bounds are relative: the same vector at a scale where squares under- / overflow (exact power of two)
+                            yield dict(kind='from_vector', n=n, d=d, vstyle=vs, tol=t, scale2=(-600, 600)[(n + d) % 2], seed=int(rng.integers(1 << 31)))
     # the tolerance rule itself on exactly representable spectra: ties between tol and a cumulative weight, exact zeros
     # (decided in exact rational arithmetic; shared with the C12 stand-in)
     from . import r_C12
     for i in range(len(r_C12.DYADIC)):
         for r in range(2 if tier == 'quick' else 10):
-            yield dict(kind='rbi', spectrum=i, shift=int(rng.integers(-3, 4)), seed=int(rng.integers(1 << 31)))
+            yield dict(kind='rbi', spectrum=i, shift=int(rng.integers(-3, 4)) if r % 2 else int(rng.choice([-900, -600, 600, 900])), seed=int(rng.integers(1 << 31)))
             yield dict(kind='tie', spectrum=i, shift=int(rng.integers(-3, 4)), seed=int(rng.integers(1 << 31)))
 
 
@@ -323,6 +326,9 @@ def run_from_vector(c, rng, fail, fails, key):
     nv = float(np.linalg.norm(v))
     if nv < 1e-12:
         return dict(failures=[], nontrivial=False, key=key)
+    v_unit = v
+    sc2 = 2.0 ** c.get('scale2', 0)
+    v = v * sc2                       # exact
     snap = oracle.snapshot(v)
     try:
         psi = ptn.MPS.from_vector(d, n, v, tol=tol)
@@ -339,7 +345,11 @@ def run_from_vector(c, rng, fail, fails, key):
     if not ok:
         fail('shapes', f'tensor shapes: {[getattr(a, "shape", None) for a in A]}')
         return dict(failures=fails, nontrivial=True, key=key)
-    w = oracle.mps_dense(A)
+    w = oracle.mps_dense(A) / sc2     # exact rescaling back to the unit scale
+    v = v_unit
+    if not np.all(np.isfinite(w)):
+        fail('returns', f'non-finite state for a vector of scale 2**{c.get("scale2", 0)}')
+        return dict(failures=fails, nontrivial=True, key=key)
     err2 = float(np.linalg.norm(w - v) ** 2)
     if err2 > n * tol * nv ** 2 + 1e-12 * nv ** 2:
         fail('error_bound', f'relative error^2 {err2 / nv**2} > L*tol = {n * tol}')
